@@ -323,3 +323,44 @@ def g2_ord(F, R):
             R.ok(key, detail=(f"E: {why}" if why and not eq_fields <= ord_fields else f"Ord for {name} compares {sorted(ord_fields)} ⊇ Eq fields {sorted(eq_fields)}"))
     if n == 0:
         raise Anchor("no hand-written Ord impl found")
+
+
+@rule("C18", "C18.g.partial-ord-agrees-with-ord", floor=2)
+@rule("C10", "G2.partial-ord-agrees-with-ord", floor=2)
+def g2_partial_ord(F, R):
+    """`sort()` compares with `lt`, i.e. through `PartialOrd`: for every type that has a hand-written `Ord`, `partial_cmp` must be `Some(self.cmp(other))` (or delegate to the same field's `partial_cmp`); a `partial_cmp` that answers `None` for some pairs leaves those pairs unsorted"""
+    ords = {}
+    for i in F.impls:
+        tr = i.get("trait") or ""
+        if tr.endswith("cmp::Ord") or tr == "core::cmp::Ord":
+            ords[i["self_ty"]] = i
+    n = 0
+    for i in F.impls:
+        tr = i.get("trait") or ""
+        if not (tr.startswith("core::cmp::PartialOrd") or tr.endswith("PartialOrd")):
+            continue
+        if i["self_ty"] not in ords:
+            continue
+        pp = [it["path"] for it in i["items"] if it["name"] == "partial_cmp"]
+        if not pp or pp[0] not in F.fns or "hir" not in F.fns[pp[0]]:
+            continue
+        f = F.fns[pp[0]]
+        if (f.get("exp") or "").startswith("Derive"):
+            continue
+        name = short(i["self_ty"].split("<")[0])
+        n += 1
+        b = peel(f["hir"]["value"])
+        while b.get("k") == "Block" and not b.get("stmts") and b.get("expr") is not None:
+            b = peel(b["expr"])
+        params = [x.get("name") for x in f["hir"]["params"]]
+        canon = b.get("k") == "Call" and short(callee_of(b) or "") == "Some" and peel(b["args"][0]).get("k") == "MethodCall" and peel(b["args"][0])["name"] == "cmp" \
+            and ekey(peel(b["args"][0])["recv"]).lstrip("&*") == "self"
+        deleg = b.get("k") == "MethodCall" and b["name"] == "partial_cmp" and ekey(b["recv"]).lstrip("&*").startswith("self.")
+        if canon:
+            R.ok(name, detail=f"PartialOrd for {name}: Some(self.cmp(other))")
+        elif deleg:
+            R.ok(name, detail=f"PartialOrd for {name} delegates to `{ekey(b['recv'])}`")
+        else:
+            R.bad(name, f"`PartialOrd for {name}` is not `Some(self.cmp(other))`: `sort()` orders through `lt`, so pairs for which partial_cmp answers None (e.g. diagnostics of different files) are left in discovery order although `Ord` orders them", f["sp"])
+    if n == 0:
+        raise Anchor("no hand-written PartialOrd next to an Ord")
